@@ -1,5 +1,6 @@
 import F1Verif.Util
 import F1Verif.Model.Staged
+import F1Verif.Model.Parse
 namespace F1.Drive
 open F1.Util F1.Staged
 
@@ -118,6 +119,36 @@ def ramp (args impl : List String) : Option (String × String) := do
       | _ => if impl = ["err"] then "FAIL valid-ramp-rejected" else "FAIL no-impl-output"
     let spec := if spec = "ok" ∧ outsF ≠ outsZ then "ok:gap" else spec
     pure (model, spec)
+  | _ => none
+
+/-- `bstaged <stages string hex> <queries>` — the staged builder on a `--stages` string: `Parse.parseStages` gives the
+stage list, then everything is `staged` (no start time: the first query is the start). -/
+def bstaged (args impl : List String) : Option (String × String) := do
+  match args with
+  | [st, qs] =>
+    let st ← hexBytes st
+    match F1.Parse.parseStages st with
+    | .ok l =>
+      let tok := if l.isEmpty then "-" else ";".intercalate (l.map fun (d, t) => s!"{d}:{t}")
+      staged [tok, "-", qs] impl
+    | _ => pure ("err", if impl = ["err"] then "ok" else "FAIL malformed-stages-accepted")
+  | _ => none
+
+/-- `bramp <s> <e> <unitNs> <rampDurNs> <maxDurNs> <queries>` — the ramp builder: `--ramp-duration 0` falls back
+to `--max-duration`, any other value is the ramp's duration whatever the run's; then everything is `ramp`.
+impl: `<rates>` | `err` (the builder does not expose its duration and interval). -/
+def bramp (args impl : List String) : Option (String × String) := do
+  match args with
+  | [s, e, unit, rd, md, qs] =>
+    let rdI ← rd.toInt?; let mdI ← md.toInt?
+    let dur := if rdI = 0 then mdI else rdI
+    let impl' := match impl with
+      | [rates] => if rates = "err" then ["err"] else [toString dur, unit, rates]
+      | x => x
+    let (m, sp) ← ramp [s, e, unit, toString dur, qs] impl'
+    -- the builder exposes only the rate function: the model line is the values alone
+    let m' := match (m.splitOn " ") with | [_, _, outs] => outs | _ => m
+    pure (m', sp)
   | _ => none
 
 end F1.Drive
